@@ -8,6 +8,7 @@ mod envelope;
 mod keys;
 mod merkle;
 mod procs;
+mod reqs;
 mod rig;
 mod srv;
 mod stats;
@@ -57,6 +58,7 @@ fn main() {
         "srv" => srv::run(&ctx),
         "sign" => keys::run_sign(&ctx),
         "cfg" => cfg::run(&ctx),
+        "reqs" => reqs::run(&ctx),
         "startup" => procs::run_startup(&ctx),
         "workers" => procs::run_workers(&ctx),
         "shutdown" => procs::run_shutdown(&ctx),
@@ -104,6 +106,7 @@ fn replay(ctx: &Ctx) {
             "merkle" => merkle::replay_one(&mut out, args),
             "srv" => srv::replay_one(&mut out, args),
             "cfg" => cfg::replay_one(&mut out, args),
+            "req" => reqs::replay_one(&mut out, op, args),
             "envenc" | "envdec" => envelope::replay_one(&mut out, op, args),
             "client" => client::replay_one(&mut out, args),
             "stats" | "rep" => stats::replay_one(&mut out, op, args),
